@@ -580,7 +580,9 @@ def P_select(sa):
     for i, od in sa["order"]:
         it = sa["items"][i]
         node = P_expr(it["e"], True)
-        if it["alias"]:
+        if it["alias"] and not sa.get("shadow") and zlib.crc32(json.dumps([it, sa["order"]]).encode()) % 3 == 0:
+            node = ["py", it["alias"]]  # the select item's alias given as a string: orderby("al1")
+        elif it["alias"]:
             node = ["as", node, it["alias"]]
         elif sa["setop"] and sa.get("setop_order_by_name") and it["e"][0] == "col":
             node = ["py", it["e"][2]]
